@@ -799,6 +799,491 @@ theorem prune_succeeds_with_lone_empty_root :
 
 end BadgerThms
 
+section BadgerSafe
+open Badger
+
+theorem at_writeAll (m : MV) (ks : List Nat) (w : Nat) (b : Bool) (k t : Nat) :
+    (m.writeAll ks w b).at k t = if k ∈ ks ∧ w = t then some b else m.at k t := by
+  induction ks generalizing m with
+  | nil => simp [MV.writeAll]
+  | cons a ks ih =>
+    simp only [MV.writeAll, List.foldl] at ih ⊢
+    rw [ih, at_write]
+    by_cases h1 : k ∈ ks ∧ w = t
+    · simp [h1]
+    · by_cases h2 : a = k ∧ w = t
+      · have : (k = a ∨ k ∈ ks) ∧ w = t := ⟨Or.inl h2.1.symm, h2.2⟩
+        simp [h1, h2, this]
+      · have : ¬((k = a ∨ k ∈ ks) ∧ w = t) := by
+          rintro ⟨h3 | h3, h4⟩
+          · exact h2 ⟨h3.symm, h4⟩
+          · exact h1 ⟨h3, h4⟩
+        simp [h1, h2, this]
+
+theorem get_of_at_eq (m m' : MV) (k : Nat) (h : ∀ t, m'.at k t = m.at k t) (t : Nat) :
+    m'.get k t = m.get k t := by
+  induction t with
+  | zero => simp [MV.get, h]
+  | succ t ih => simp [MV.get, h, ih]
+
+/-- Writing the same batch twice reads like writing it once. -/
+theorem get_writeAll_idem (m : MV) (ks : List Nat) (w : Nat) (b : Bool) (k t : Nat) :
+    ((m.writeAll ks w b).writeAll ks w b).get k t = (m.writeAll ks w b).get k t := by
+  apply get_of_at_eq
+  intro t'
+  rw [at_writeAll, at_writeAll]
+  split <;> rfl
+
+
+/-! ### B3 — the restriction under which the badger model keeps every reported root readable -/
+
+theorem live_of_at (m : MV) (k t : Nat) (h : m.at k t = some true) : m.live k t = true := by
+  cases t with
+  | zero => rw [live_zero, h]; rfl
+  | succ t => rw [live_succ, h]
+
+/-- A tombstone (or any write) at timestamp `w` cannot change what a reader sees whose visible
+entry was written after `w`. -/
+theorem get_write_shield (m : MV) (k w : Nat) (b : Bool) (k' t ts : Nat) (bv : Bool)
+    (hg : m.get k' t = some (ts, bv)) (hs : w < ts) : (m.write k w b).get k' t = some (ts, bv) := by
+  induction t with
+  | zero =>
+    simp only [MV.get] at hg ⊢
+    cases ha : m.at k' 0 with
+    | none => simp [ha] at hg
+    | some x =>
+      simp only [ha, Option.map_some, Option.some.injEq, Prod.mk.injEq] at hg
+      omega
+  | succ t ih =>
+    simp only [MV.get] at hg ⊢
+    rw [at_write]
+    cases ha : m.at k' (t + 1) with
+    | some x =>
+      simp only [ha, Option.some.injEq, Prod.mk.injEq] at hg
+      have : ¬ (k = k' ∧ w = t + 1) := by omega
+      simp only [this, if_false, ha]
+      rw [hg.1, hg.2]
+    | none =>
+      simp only [ha] at hg
+      have hts : ts ≤ t := by
+        -- the entry found at or below t has a timestamp at most t
+        have : ∀ (t' : Nat) (x : Nat × Bool), m.get k' t' = some x → x.1 ≤ t' := by
+          intro t'
+          induction t' with
+          | zero =>
+            intro x hx
+            simp only [MV.get] at hx
+            cases h0 : m.at k' 0 with
+            | none => simp [h0] at hx
+            | some y => simp only [h0, Option.map_some, Option.some.injEq] at hx; rw [← hx]; exact Nat.le_refl _
+          | succ t' ih' =>
+            intro x hx
+            simp only [MV.get] at hx
+            cases h1 : m.at k' (t' + 1) with
+            | some y => simp only [h1, Option.some.injEq] at hx; rw [← hx]; exact Nat.le_refl _
+            | none => simp only [h1] at hx; have := ih' x hx; omega
+        exact this t (ts, bv) hg
+      have : ¬ (k = k' ∧ w = t + 1) := by omega
+      simp only [this, if_false, ha]
+      exact ih hg
+
+theorem get_writeAll_shield (m : MV) (ks : List Nat) (w : Nat) (b : Bool) (k' t ts : Nat) (bv : Bool)
+    (hg : m.get k' t = some (ts, bv)) (hs : w < ts) : (m.writeAll ks w b).get k' t = some (ts, bv) := by
+  induction ks generalizing m with
+  | nil => exact hg
+  | cons a ks ih =>
+    simp only [MV.writeAll, List.foldl] at ih ⊢
+    exact ih _ (get_write_shield m a w b k' t ts bv hg hs)
+
+/-- Every reported root of the window has its root-node key written at its own timestamp and all
+the nodes of its tree visible there. -/
+def Good (cl : Nat → List Nat) (s : St) : Prop :=
+  ∀ w th, s.earliest ≤ w → hasKey (s.rmeta w) th = true →
+    s.rootNode.at (encTH th) w = some true ∧ (th.2 ≠ 0 → ∀ n ∈ cl th.2, s.node.live n w = true)
+
+theorem good_readable (cl : Nat → List Nat) (s : St) (hg : Good cl s) (r : Root)
+    (he : s.earliest ≤ r.ver) (hk : hasKey (s.rmeta r.ver) (r.typ, r.hash) = true) :
+    readable cl s r = true := by
+  obtain ⟨h1, h2⟩ := hg r.ver (r.typ, r.hash) he hk
+  unfold readable
+  by_cases h0 : (r.hash == 0) = true
+  · simp [h0]
+  · simp only [h0, Bool.false_or, List.all_eq_true]
+    intro n hn
+    unfold nodeVisible
+    have := h2 (by simpa using h0) n hn
+    simp [he, live_of_at _ _ _ h1, this]
+
+theorem getMeta_mem_versions (l : List (Nat × RootsMeta)) (w : Nat) (th : TH)
+    (h : hasKey (getMeta l w) th = true) : w ∈ l.map (·.1) := by
+  induction l with
+  | nil => simp [getMeta, hasKey] at h
+  | cons e l ih =>
+    simp only [getMeta] at h
+    by_cases hw : e.1 = w
+    · simp [hw]
+    · simp only [hw, if_false] at h
+      exact List.mem_cons_of_mem _ (ih h)
+
+theorem hasKey_map_keys (rm : RootsMeta) (f : TH × List TH → TH × List TH) (hf : ∀ e, (f e).1 = e.1) (x : TH) :
+    hasKey (rm.map f) x = hasKey rm x := by
+  unfold hasKey
+  induction rm with
+  | nil => rfl
+  | cons e rm ih => simp only [List.map_cons, List.any_cons, hf, ih]
+
+theorem hasKey_commitSt (s : St) (o n : Root) (a r : List Nat) (w : Nat) (x : TH) :
+    hasKey ((commitSt s o n a r).rmeta w) x =
+      (hasKey (s.rmeta w) x || (decide (w = n.ver) && x == (n.typ, n.hash))) := by
+  have hmeta1 : ∀ u, getMeta (metaWithRoot s n) u =
+      if n.ver = u then s.rmeta n.ver ++ [((n.typ, n.hash), [])] else s.rmeta u := by
+    intro u; simp [metaWithRoot, getMeta_cons, St.rmeta]
+  have hk1 : ∀ u, hasKey (getMeta (metaWithRoot s n) u) x =
+      (hasKey (s.rmeta u) x || (decide (u = n.ver) && x == (n.typ, n.hash))) := by
+    intro u
+    rw [hmeta1]
+    by_cases hu : n.ver = u
+    · subst hu
+      simp only [if_true, hasKey, List.any_append, List.any_cons, List.any_nil, Bool.or_false, decide_true,
+        Bool.true_and]
+      congr 1
+      exact Bool.eq_iff_iff.2 ⟨fun h => by simpa using (by simpa using h : (n.typ, n.hash) = x).symm,
+        fun h => by simpa using (by simpa using h : x = (n.typ, n.hash)).symm⟩
+    · have : ¬ u = n.ver := fun e => hu e.symm
+      simp [hu, this]
+  unfold commitSt St.rmeta
+  simp only
+  by_cases h0 : (o.hash != 0) = true
+  · simp only [h0, if_true, getMeta_cons]
+    by_cases hu : o.ver = w
+    · subst hu
+      simp only [if_true]
+      rw [hasKey_map_keys _ _ (by intro e; split <;> rfl)]
+      exact hk1 o.ver
+    · simp only [hu, if_false]
+      exact hk1 w
+  · simp only [h0, Bool.false_eq_true, if_false]
+    exact hk1 w
+
+/-- Commit keeps `Good` when every node of the new tree is put or already visible (`commitSafe`). -/
+theorem good_commit (cl : Nat → List Nat) (s s' : St) (o n : Root) (a r : List Nat)
+    (h : Badger.commit s o n a r = .ok s') (hsafe : commitSafe cl s n a = true) (hg : Good cl s) :
+    Good cl s' := by
+  rw [bcommit_ok_inv h]
+  split
+  · exact hg
+  · intro w th he hk
+    rw [hasKey_commitSt] at hk
+    have he' : s.earliest ≤ w := he
+    show (s.rootNode.write (encTH (n.typ, n.hash)) n.ver true).at (encTH th) w = some true ∧
+      (th.2 ≠ 0 → ∀ x ∈ cl th.2, (s.node.writeAll a n.ver true).live x w = true)
+    rw [at_write]
+    by_cases hnew : (decide (w = n.ver) && th == (n.typ, n.hash)) = true
+    · simp only [Bool.and_eq_true, decide_eq_true_eq, beq_iff_eq] at hnew
+      obtain ⟨hw, hth⟩ := hnew
+      subst hw; subst hth
+      refine ⟨by simp, ?_⟩
+      intro h0 x hx
+      unfold commitSafe at hsafe
+      have h0' : ¬ (n.hash == 0) = true := by simpa using h0
+      simp only [h0', Bool.false_or, List.all_eq_true, Bool.or_eq_true, List.contains_eq_mem,
+        decide_eq_true_eq] at hsafe
+      rcases hsafe x hx with hm | hl
+      · exact live_writeAll_true_mem _ _ _ _ hm
+      · exact live_writeAll_true_mono _ _ _ _ _ hl
+    · have hk' : hasKey (s.rmeta w) th = true := by
+        simp only [Bool.or_eq_true] at hk
+        rcases hk with hk | hk
+        · exact hk
+        · exact absurd hk hnew
+      obtain ⟨g1, g2⟩ := hg w th he' hk'
+      refine ⟨?_, fun h0 x hx => live_writeAll_true_mono _ _ _ _ _ (g2 h0 x hx)⟩
+      split
+      · rfl
+      · exact g1
+
+theorem hasKey_filter_sub (rm : RootsMeta) (q : TH × List TH → Bool) (x : TH)
+    (h : hasKey (rm.filter q) x = true) : hasKey rm x = true ∧ ∃ e ∈ rm.filter q, e.1 = x := by
+  simp only [hasKey, List.any_eq_true, beq_iff_eq] at h ⊢
+  obtain ⟨e, he, hx⟩ := h
+  exact ⟨⟨e, (List.mem_filter.1 he).1, hx⟩, e, he, hx⟩
+
+/-- Finalize keeps `Good` when it is safe (`finalizeSafe`). -/
+theorem good_finalize (cl : Nat → List Nat) (s s' : St) (v : Nat) (ch : List Root)
+    (h : Badger.finalize s v ch = .ok s') (hsafe : finalizeSafe cl s v ch = true)
+    (hwin : s.earliest ≤ v) (hg : Good cl s) : Good cl s' := by
+  obtain ⟨_, hs'⟩ := bfinalize_ok_inv h
+  subst hs'
+  unfold finalizeSafe at hsafe
+  simp only [Bool.and_eq_true, List.all_eq_true, Bool.or_eq_true, beq_iff_eq, decide_eq_true_eq,
+    Bool.not_eq_true', List.contains_eq_mem, decide_eq_false_iff_not] at hsafe
+  obtain ⟨hkeep, hlater⟩ := hsafe
+  intro w th he hk
+  have hew : s.earliest ≤ w := by
+    simp only [finalizeSt] at he
+    cases hl : s.last with
+    | none => simp only [hl] at he; simp at he; omega
+    | some l => simpa [hl] using he
+  have hrn : (finalizeSt s v ch).rootNode = s.rootNode := rfl
+  rw [hrn]
+  show _ ∧ (th.2 ≠ 0 → ∀ n ∈ cl th.2,
+    (s.node.writeAll (finPlan s v (chosenTH ch)).dels v false).live n w = true)
+  rcases Nat.lt_trichotomy w v with hlt | heq | hgt
+  · -- an earlier version: untouched
+    have hk' : hasKey (s.rmeta w) th = true := by
+      have : (finalizeSt s v ch).rmeta w = s.rmeta w := by
+        simp [finalizeSt, St.rmeta, getMeta_cons]; omega
+      rw [this] at hk; exact hk
+    obtain ⟨g1, g2⟩ := hg w th hew hk'
+    refine ⟨g1, fun h0 n hn => ?_⟩
+    rw [live_congr_get _ _ _ _ (get_writeAll_lt _ _ _ _ _ _ hlt)]
+    exact g2 h0 n hn
+  · -- the finalized version: kept roots lose nothing
+    subst heq
+    have hmeta : (finalizeSt s w ch).rmeta w = (finPlan s w (chosenTH ch)).keep := by
+      simp [finalizeSt, St.rmeta, getMeta_cons]
+    rw [hmeta] at hk
+    have hkeepdef : (finPlan s w (chosenTH ch)).keep =
+        (s.rmeta w).filter (fun e => (closeFin (s.rmeta w) (chosenTH ch)).contains e.1) := rfl
+    rw [hkeepdef] at hk
+    obtain ⟨hk', e, hemem, hex⟩ := hasKey_filter_sub _ _ _ hk
+    obtain ⟨g1, g2⟩ := hg w th hew hk'
+    refine ⟨g1, fun h0 n hn => ?_⟩
+    rw [live_writeAll_false_at]
+    have := hkeep e (by rw [hkeepdef]; exact hemem)
+    rw [hex] at this
+    rcases this with hz | hnd
+    · exact absurd hz h0
+    · simp [hnd n hn, g2 h0 n hn]
+  · -- a later version: shielded or not deleted
+    have hk' : hasKey (s.rmeta w) th = true := by
+      have : (finalizeSt s v ch).rmeta w = s.rmeta w := by
+        simp [finalizeSt, St.rmeta, getMeta_cons]; omega
+      rw [this] at hk; exact hk
+    obtain ⟨g1, g2⟩ := hg w th hew hk'
+    refine ⟨g1, fun h0 n hn => ?_⟩
+    have hwv := getMeta_mem_versions s.rmetaL w th hk'
+    have hl := hlater w hwv
+    rcases hl with hle | hall
+    · omega
+    · simp only [hasKey, List.any_eq_true, beq_iff_eq] at hk'
+      obtain ⟨e, he', hex⟩ := hk'
+      rcases hall e he' with hz | hnodes
+      · rw [hex] at hz; exact absurd hz h0
+      · rw [hex] at hnodes
+        rcases hnodes n hn with hnd | hsh
+        · rw [live_congr_get _ _ _ _ (get_writeAll_notin _ _ _ _ _ _ hnd)]
+          exact g2 h0 n hn
+        · unfold shielded at hsh
+          cases hgn : s.node.get n w with
+          | none => simp [hgn] at hsh
+          | some x =>
+            obtain ⟨ts, bv⟩ := x
+            simp only [hgn, decide_eq_true_eq] at hsh
+            rw [live_congr_get _ _ _ _ ((get_writeAll_shield _ _ _ _ _ _ ts bv hgn hsh).trans hgn.symm)]
+            exact g2 h0 n hn
+
+/-- Prune keeps `Good` when it is safe (`pruneSafe`). -/
+theorem good_prune (cl clv : Nat → List Nat) (s s' : St) (v : Nat)
+    (h : Badger.prune cl clv s v = .ok s') (hsafe : pruneSafe cl clv s v = true) (hg : Good cl s) :
+    Good cl s' := by
+  obtain ⟨he, hs'⟩ := bprune_ok_inv h
+  obtain ⟨_, hearl, _⟩ := bpruneErr_none he
+  subst hs'
+  unfold pruneSafe at hsafe
+  simp only [List.all_eq_true, Bool.or_eq_true, beq_iff_eq, decide_eq_true_eq,
+    Bool.not_eq_true', List.contains_eq_mem, decide_eq_false_iff_not] at hsafe
+  intro w th hew hk
+  have hgt : v < w := by simp only [pruneSt] at hew; omega
+  have hk' : hasKey (s.rmeta w) th = true := by
+    have : (pruneSt clv s v).rmeta w = s.rmeta w := by
+      simp [pruneSt, St.rmeta, getMeta_cons]; omega
+    rw [this] at hk; exact hk
+  obtain ⟨g1, g2⟩ := hg w th (by omega) hk'
+  refine ⟨?_, fun h0 n hn => ?_⟩
+  · show (s.rootNode.writeAll _ v false).at (encTH th) w = some true
+    rw [at_writeAll]
+    have : ¬ (encTH th ∈ (loneRoots s v).map (fun e => encTH e.1) ∧ v = w) := by omega
+    rw [if_neg this]; exact g1
+  · show (s.node.writeAll (pruneDels clv s v) v false).live n w = true
+    have hwv := getMeta_mem_versions s.rmetaL w th hk'
+    rcases hsafe w hwv with hle | hall
+    · omega
+    · simp only [hasKey, List.any_eq_true, beq_iff_eq] at hk'
+      obtain ⟨e, he', hex⟩ := hk'
+      rcases hall e he' with hz | hnodes
+      · rw [hex] at hz; exact absurd hz h0
+      · rw [hex] at hnodes
+        rcases hnodes n hn with hnd | hsh
+        · rw [live_congr_get _ _ _ _ (get_writeAll_notin _ _ _ _ _ _ hnd)]
+          exact g2 h0 n hn
+        · unfold shielded at hsh
+          cases hgn : s.node.get n w with
+          | none => simp [hgn] at hsh
+          | some x =>
+            obtain ⟨ts, bv⟩ := x
+            simp only [hgn, decide_eq_true_eq] at hsh
+            rw [live_congr_get _ _ _ _ ((get_writeAll_shield _ _ _ _ _ _ ts bv hgn hsh).trans hgn.symm)]
+            exact g2 h0 n hn
+
+/-! history level -/
+
+inductive BOp where
+  | commit (old new : Root) (added removed : List Nat)
+  | finalize (v : Nat) (chosen : List Root)
+  | prune (v : Nat)
+
+def bstep (cl clv : Nat → List Nat) (s : St) : BOp → St
+  | .commit o n a r => match Badger.commit s o n a r with | .ok s' => s' | .error _ => s
+  | .finalize v ch => match Badger.finalize s v ch with | .ok s' => s' | .error _ => s
+  | .prune v => match Badger.prune cl clv s v with | .ok s' => s' | .error _ => s
+
+/-- The restriction: every step that takes effect satisfies its safety predicate. -/
+def SafeStep (cl clv : Nat → List Nat) (s : St) : BOp → Prop
+  | .commit o n a r => isOk (Badger.commit s o n a r) = true → commitSafe cl s n a = true
+  | .finalize v ch => isOk (Badger.finalize s v ch) = true → finalizeSafe cl s v ch = true
+  | .prune v => isOk (Badger.prune cl clv s v) = true → pruneSafe cl clv s v = true
+
+def SafeRun (cl clv : Nat → List Nat) : St → List BOp → Prop
+  | _, [] => True
+  | s, op :: ops => SafeStep cl clv s op ∧ SafeRun cl clv (bstep cl clv s op) ops
+
+def brun (cl clv : Nat → List Nat) (s : St) (ops : List BOp) : St := ops.foldl (bstep cl clv) s
+
+/-- The window never starts after a version that can still be finalized. -/
+def WinOK (s : St) : Prop := (∀ l, s.last = some l → s.earliest ≤ l) ∧ (s.last = none → s.earliest = 0)
+
+theorem winOK_step (cl clv : Nat → List Nat) (s : St) (op : BOp) (h : WinOK s) : WinOK (bstep cl clv s op) := by
+  cases op with
+  | commit o n a r =>
+    simp only [bstep]
+    cases hc : Badger.commit s o n a r with
+    | error e => exact h
+    | ok s' =>
+      simp only
+      rw [bcommit_ok_inv hc]
+      split
+      · exact h
+      · exact h
+  | finalize v ch =>
+    simp only [bstep]
+    cases hf : Badger.finalize s v ch with
+    | error e => exact h
+    | ok s' =>
+      simp only
+      obtain ⟨he, hs'⟩ := bfinalize_ok_inv hf
+      subst hs'
+      refine ⟨fun l hl => ?_, fun hn => by simp [finalizeSt] at hn⟩
+      have hlv : l = v := by simp only [finalizeSt] at hl; exact (Option.some.inj hl).symm
+      subst hlv
+      cases hl' : s.last with
+      | none => simp [finalizeSt, hl']
+      | some l' =>
+        have h1 := h.1 l' hl'
+        -- the finalized version lies above the last one
+        unfold finalizeErr at he
+        by_cases g1 : ch.isEmpty = true
+        · simp [g1] at he
+        · simp only [g1] at he
+          by_cases g2 : Badger.gapBefore s l = true
+          · simp [g2] at he
+          · simp only [g2] at he
+            by_cases g3 : Badger.finalizedGE s l = true
+            · simp [g3] at he
+            · simp only [Badger.finalizedGE, hl', decide_eq_true_eq] at g3
+              simp [finalizeSt, hl']; omega
+  | prune v =>
+    simp only [bstep]
+    cases hp : Badger.prune cl clv s v with
+    | error e => exact h
+    | ok s' =>
+      simp only
+      obtain ⟨he, hs'⟩ := bprune_ok_inv hp
+      obtain ⟨⟨l, hl, hlt⟩, _, _⟩ := bpruneErr_none he
+      subst hs'
+      refine ⟨fun l' hl' => ?_, fun hn => ?_⟩
+      · have : l' = l := by
+          have e : (pruneSt clv s v).last = s.last := rfl
+          rw [e, hl] at hl'; exact (Option.some.inj hl').symm
+        subst this
+        show v + 1 ≤ l'; omega
+      · have e : (pruneSt clv s v).last = s.last := rfl
+        rw [e, hl] at hn; simp at hn
+
+theorem good_step (cl clv : Nat → List Nat) (s : St) (op : BOp) (hw : WinOK s) (hg : Good cl s)
+    (hs : SafeStep cl clv s op) : Good cl (bstep cl clv s op) := by
+  cases op with
+  | commit o n a r =>
+    simp only [bstep]
+    cases hc : Badger.commit s o n a r with
+    | error e => exact hg
+    | ok s' => exact good_commit cl s s' o n a r hc (hs (by simp [hc, isOk])) hg
+  | finalize v ch =>
+    simp only [bstep]
+    cases hf : Badger.finalize s v ch with
+    | error e => exact hg
+    | ok s' =>
+      have hwin : s.earliest ≤ v := by
+        obtain ⟨he, _⟩ := bfinalize_ok_inv hf
+        cases hl : s.last with
+        | none => rw [hw.2 hl]; omega
+        | some l =>
+          have h1 := hw.1 l hl
+          unfold finalizeErr at he
+          by_cases g1 : ch.isEmpty = true
+          · simp [g1] at he
+          · simp only [g1] at he
+            by_cases g2 : Badger.gapBefore s v = true
+            · simp [g2] at he
+            · simp only [g2] at he
+              by_cases g3 : Badger.finalizedGE s v = true
+              · simp [g3] at he
+              · simp only [Badger.finalizedGE, hl, decide_eq_true_eq] at g3
+                omega
+      exact good_finalize cl s s' v ch hf (hs (by simp [hf, isOk])) hwin hg
+  | prune v =>
+    simp only [bstep]
+    cases hp : Badger.prune cl clv s v with
+    | error e => exact hg
+    | ok s' => exact good_prune cl clv s s' v hp (hs (by simp [hp, isOk])) hg
+
+/-- **badger_readable_inv_partial.** For every history whose steps satisfy the three safety
+predicates — a batch only points to nodes it puts or that are visible (`commitSafe`), a Finalize
+deletes no node of a root it keeps (`finalizeSafe`: no discarded candidate re-put an inherited node,
+no kept root removed a node another kept root needs), a Prune deletes no unshielded node of a
+later root (`pruneSafe`: no lone root shares a node of its version with a root that lives on) —
+every root the badger model reports inside the window reads back completely, after every prefix of
+the history: finalized roots stay readable through all later commits, finalizations (whatever is
+discarded) and prunes.  PARTIAL: the unconditional statement is false
+(`finalize_can_destroy_finalized_root`, `prune_can_destroy_later_finalized_root` — both histories
+violate the predicates, `known_findings_are_outside_the_restriction`). -/
+theorem badger_readable_inv_partial (cl clv : Nat → List Nat) (ops : List BOp)
+    (hsafe : SafeRun cl clv Badger.init ops) (r : Root)
+    (he : (brun cl clv Badger.init ops).earliest ≤ r.ver)
+    (hk : hasKey ((brun cl clv Badger.init ops).rmeta r.ver) (r.typ, r.hash) = true) :
+    readable cl (brun cl clv Badger.init ops) r = true := by
+  have gen : ∀ (l : List BOp) (s : St), WinOK s → Good cl s → SafeRun cl clv s l →
+      Good cl (brun cl clv s l) := by
+    intro l
+    induction l with
+    | nil => intro s _ hg _; exact hg
+    | cons op l ih =>
+      intro s hw hg hs
+      exact ih _ (winOK_step cl clv s op hw) (good_step cl clv s op hw hg hs.1) hs.2
+  have hgood := gen ops Badger.init ⟨fun l hl => by simp [Badger.init] at hl, fun _ => rfl⟩
+    (by intro w th _ hk'; simp [Badger.init, St.rmeta, getMeta, hasKey] at hk') hsafe
+  exact good_readable cl _ hgood r he hk
+
+/-- The two counterexample histories are outside the restriction: the Finalize of the first and
+the Prune of the second violate their safety predicate (and every earlier step satisfies its own). -/
+theorem known_findings_are_outside_the_restriction :
+    finalizeSafe cexCl cexBeforeFinalize 2 [⟨2, 0, 11⟩] = false ∧
+    finalizeSafe cexCl cexBeforeFinalize 2 [⟨2, 0, 1⟩] = true ∧
+    pruneSafe cexCl2 cexCl2 cexBeforePrune 1 = false := by
+  decide
+
+end BadgerSafe
+
 /-! ## Part B2 — the pathbadger bookkeeping model
 
 Histories of the operations of `OasisModel.NodeDB.PathBadger`.  The only hypothesis is about what
@@ -1006,6 +1491,7 @@ theorem pfinalizedGE_eq {p : PathBadger.St} {sp : Spec.St} (h : sp.last = p.last
     Spec.finalizedGE sp v = PathBadger.finalizedGE p v := by
   unfold Spec.finalizedGE PathBadger.finalizedGE
   rw [h]
+  cases p.last <;> rfl
 
 /-- A version that is not finalized lies inside the window. -/
 theorem window_of_notfin {p : PathBadger.St} (hinv : Inv p) {v : Nat} (h : PathBadger.finalizedGE p v = false) :
@@ -1149,7 +1635,7 @@ theorem pathbadger_refines_spec_finalize (p : PathBadger.St) (sp : Spec.St) (v :
       simp only [Bool.and_eq_true, List.all_eq_true, List.mem_filter, List.contains_eq_mem, decide_eq_true_eq,
         beq_iff_eq]
       exact ⟨fun r hr => hr, fun r hr => ⟨gver r hr.1, hr.2⟩⟩
-    · refine ⟨_, ?_, ?_⟩
+    · refine ⟨{ present := sp.present.filter (fun e => e.1.ver != v || (ch.filter (fun r => Spec.isPresent sp r)).contains e.1), fin := sp.fin ++ ch.filter (fun r => Spec.isPresent sp r), last := some v, earliest := if sp.last.isNone then v else sp.earliest }, ?_, ?_⟩
       · unfold Spec.finalize Spec.finalizeErr
         have hvm : ch.any (fun r => r.ver != v) = false := by
           rw [List.any_eq_false]; intro r hr; simpa using gver r hr
@@ -1241,9 +1727,7 @@ theorem pathbadger_refines_spec_prune (p : PathBadger.St) (sp : Spec.St) (v : Na
       unfold PathBadger.pruneErr at h1
       rw [hl, he]
       exact h1
-    refine ⟨{ sp with present := sp.present.filter (fun e => e.1.ver != v)
-                       fin := sp.fin.filter (fun r => r.ver != v)
-                       earliest := v + 1 }, by unfold Spec.prune; rw [hs], hl, rfl, ?_⟩
+    refine ⟨{ sp with present := sp.present.filter (fun e => e.1.ver != v), fin := sp.fin.filter (fun r => r.ver != v), earliest := v + 1 }, by unfold Spec.prune; rw [hs], hl, rfl, ?_⟩
     intro r hr
     have hgt : v < r.ver := by simp only [pruneSt] at hr; omega
     obtain ⟨l, _, _, hearl⟩ := OasisProofs.PathBadgerH.pruneErr_none h1
